@@ -166,7 +166,7 @@ func c03Attach(srv *kit.Server, path, kind string) (*c03client, error) {
 			}
 		}()
 	case "ws-flv":
-		d := websocket.Dialer{HandshakeTimeout: 5 * time.Second}
+		d := websocket.Dialer{HandshakeTimeout: 60 * time.Second}
 		ws, _, err := d.Dial("ws://"+srv.Addr+"/streams"+path+".flv", nil)
 		if err != nil {
 			return nil, err
